@@ -233,6 +233,33 @@ pub fn sites(tier: Tier) -> Vec<Site> {
                 };
                 check(&s, i, "caret-then-any-character", acc);
             })
+    },
+    {
+        // "any number of codes": one unit repeated around every power of two up to 2^17 (counters of 8 and 16 bits
+        // wrap in there), with a different unit in front and behind
+        let units = ["^1", "^1a", "a^2", "^^", "^^3", "^v", "|", "^", "^9^^", "\u{e9}^4"];
+        let mut counts: Vec<usize> = vec![];
+        for k in [8u32, 12, 15, 16, 17] { for d in [-1i64, 0, 1] { counts.push(((1i64 << k) + d) as usize); } }
+        counts.extend([3 * 65536 + 2, 100_000]);
+        let frames = [("", ""), ("x", "^5y"), ("^3", "")];
+        let n = (units.len() * counts.len() * frames.len()) as u64;
+        Site::new("many-units", n,
+            "10 units (colour codes, escaped carets, escape letters, reserved characters, a lone caret) repeated 2^k-1, 2^k, 2^k+1 times for k in {8, 12, 15, 16, 17} and 100 000 / 196 610 times x 3 surroundings: escape / unescape / strip / wire round trip as for every other string",
+            move |i, acc| {
+                let mut j = i as usize;
+                let (head, tail) = frames[j % frames.len()]; j /= frames.len();
+                let c = counts[j % counts.len()]; j /= counts.len();
+                let u = units[j % units.len()];
+                let mut s = String::with_capacity(head.len() + tail.len() + u.len() * c);
+                s.push_str(head);
+                for _ in 0..c { s.push_str(u); }
+                s.push_str(tail);
+                check(&s, i, "many-units", acc);
+            })
+    },
+    {
+        let corpus: Vec<(String, String)> = ["", "plain", "^1red^8", "a^^b", "^v|^a*", "path/to\\file?", "^Jあ^Lx", "^", "^9^9^9", "100% <ok>", "^hx^tq", "#tag:\"v\""].iter().map(|s| (format!("text {s:?}"), s.to_string())).collect();
+        crate::crossthread::site("C12", "cross-thread-calls", "escape / unescape / strip", corpus, |s: &String| (escape(s).to_string(), unescape(s).to_string(), insim::core::string::colours::strip(s).to_string()))
     }]
 }
 
